@@ -87,7 +87,7 @@ def gen_record(rng, r):
                 ti = rng.randrange(ntempl)
                 e = catalog.ENTRIES[templates[ti]["entry"]]
                 if e["seeded"]:
-                    kind = rng.choice(["int", "int", "int", "rs", "none"])
+                    kind = rng.choice(["int", "int", "int", "rs", "rs", "none"])
                 else:
                     kind = "det"
                 # refit: estimator objects are fitted this many times before the result is taken (int seeds only);
@@ -199,6 +199,14 @@ class Run:
             st["switched"] = True
 
     def callback(self, *a, **k):
+        # what the library hands to the caller's callback is output of the call just like its return value
+        cur = self.sched.cur
+        st = getattr(cur, "local", None)
+        if isinstance(st, dict) and st.get("in_call") and isinstance(st.get("cb"), list) and len(st["cb"]) < 400:
+            try:
+                st["cb"].append(snapshot.digest((a, sorted(k.items()))))
+            except Exception as ex:  # noqa
+                st["cb"].append("undigestable:" + type(ex).__name__)
         self.P.event("callback")
         return None
 
@@ -232,7 +240,7 @@ class Run:
 
         # thread-local selection through the real manager: other sim-threads are unaffected
         _ta.set_backend(tm.get("tenalg", "core"), local_threadsafe=True)
-        st.update(in_call=True, ev=0, op=i, foreign=False, switched=False)
+        st.update(in_call=True, ev=0, op=i, foreign=False, switched=False, cb=[])
         before = rngenv.state_digest()
         inv = self.sched.stamp()
         try:
@@ -243,6 +251,9 @@ class Run:
             out = "raised:" + type(ex).__name__
         finally:
             st["in_call"] = False
+        if st.get("cb"):
+            self.cnt.inc("probe:callback_arguments_in_result")
+            out = snapshot.digest((out, st["cb"]))
         after = rngenv.state_digest()
         self.calls.append(
             dict(t=t.id, op=i, tmpl=op["t"], entry=tm["entry"], kind=kind, s=op["s"], out=out, inv=inv, ret=self.sched.stamp(),
@@ -645,7 +656,7 @@ def replay_file(path):
 
 # ------------------------------------------------------------------ driver interface
 
-QUICK_RUNS = 8000
+QUICK_RUNS = 12000
 CHUNK = 50
 CHUNK_TIMEOUT = 900
 THOROUGH_S = 1200
